@@ -223,6 +223,8 @@ def jobs(tier):
         J.append({'harness': 'canonical_roundtrip', 'params': {'smi': s}, 'budget_s': 300, 'weight': 5})
     J.append({'harness': 'roundtrip', 'params': {'smi': 'CC[O-]', 'falsify': True}, 'twin': True, 'budget_s': 120,
               'max_failures': 1})
+    for s in seeds.BIG_STEREO:
+        J.append({'harness': 'canonical_roundtrip', 'params': {'smi': s}, 'budget_s': 300, 'weight': 5})
     J.append({'harness': 'map_boundary', 'budget_s': 60, 'max_failures': 20})
     for s, k in FREE:
         J.append({'harness': 'injective', 'params': {'smi': s, 'kind': k}, 'budget_s': 300})
